@@ -47,6 +47,8 @@ INFO = {
     "C16-B": ("IDNA_HIGH_IGNORED_END off by one: U+E01EF no longer ignored", "non-ASCII domain containing exactly U+E01EF"),
     "C17-A": ("ada_set_href assigns the parse result into the handle: a failed call poisons the handle", "valid handle, ada_set_href with an unparsable input, then any later call"),
     "C17-B": ("empty owned strings are returned as a pointer to a literal; ada_free_owned_string deletes it", "owned string with empty content (to_string of an empty list, failed idna conversion) followed by its free"),
+    "C19-A": ("parse_scheme slow path no longer clears a port equal to the new scheme's default", "set_protocol with a special scheme spelled with an upper-case letter on a URL whose port is that scheme's default (https://h:80 -> 'HTTP')"),
+    "C19-B": ("unicode::to_ascii accepts an empty IDNA result: special URL with an empty host", "special non-file URL whose host consists only of IDNA-ignored code points (U+00AD ...), via parse or host setters"),
     "C18-A": ("AVX-512-only ipv6_structure_plausible(): 'colons > 8' became '> 7'", "-mavx512bw -mavx512vl build, bracketed IPv6 host with exactly 8 colons"),
     "C18-B": ("development-checks-only assertion in helpers::substring: 'pos <= size' became 'pos < size'", "ADA_DEVELOPMENT_CHECKS=1 build, file: URL whose path is exactly '/' being shortened"),
 }
